@@ -124,7 +124,7 @@ def run_nego(ctx, mode, ekm=0, subset=None, extra_scn=None, shards=8, extra_ids=
                 "force_suite": 0, "force_group": 0, "force_alpn": "", "hrr_cookie": 0, "legacy_only": False, "canary": 0,
                 "sid_echo": "", "compression": 0, "psk_index": 0, "hrr_group": 0,
                 "alps_cp": 0, "alps12": False, "client_alps": "", "alps_settings": [], "remove_sni": False, "client_auth": 0, "resume": False,
-                "no_reneg": False, "ks_reverse": False, "fp_copy": False, "prior_id": "", "extra_exts": []})
+                "no_reneg": False, "ks_reverse": False, "ks_list": [], "fp_copy": False, "prior_id": "", "extra_exts": []})
     scns = scns + [can]
     for i, s in enumerate(scns):
         s["sc"] = i
